@@ -1,6 +1,7 @@
 """Data for MANIFEST.json."""
 
 HOOK_COMMITS = ["52285d2"]
+FIX_COMMITS = ["8798a69", "9de7a26", "f89963f", "7213fd6", "49d8190", "d095b21"]
 
 NOTES = ("Runtime monitoring only: every check runs the real sodg code built from /repo's working tree under generated "
          "workloads with an oracle observing every call. Exit 0 held / 1 VIOLATION / 2 INCONCLUSIVE (machinery problem, "
@@ -53,10 +54,75 @@ CHECKS = {
         "note": TRUST,
         "technique": "long-run differential monitoring against the reference model + slot-fill probe",
     },
+    "C08": {
+        "text": "Exploration: original and reloaded graph run as twins in lock-step under a random continuation and a final drain; digests of "
+                "all queries compared at load time and after every call; hook snapshot equality (modulo allocator position) recorded; "
+                "the reloaded graph's next_id() judged against 'restart from the lowest absent id'.",
+        "design_ref": "§4 C08, §3.7",
+        "note": TRUST + " Model-free oracle (the other copy); the model only supplies legal continuations.",
+        "technique": "twin-execution differential monitor (original vs reloaded) with differential continuation",
+    },
+    "C09": {
+        "category": "fault_enumeration",
+        "text": "Fault enumeration: for each sampled image every prefix length 0..size-1 is loaded (exhaustive per image), and real partial "
+                "writes of save() are injected through RLIMIT_FSIZE; load() must return Err every time.",
+        "design_ref": "§4 C09",
+        "note": TRUST + " Images are sampled (from generated histories); the cut points per image are enumerated completely.",
+        "technique": "fault injection (truncation at every byte; kernel-enforced partial writes) with a result oracle",
+    },
+    "C10": {
+        "text": "Exploration: original and clone as twins in lock-step (all return values incl. next_id and merge ids, digests, drain); "
+                "frozen copies checked for independence in both directions.",
+        "design_ref": "§4 C10, §3.7",
+        "note": TRUST + " Model-free oracle (the other copy).",
+        "technique": "twin-execution differential monitor (original vs clone) + independence check",
+    },
+    "C13": {
+        "text": "Exploration: slices of generated cyclic graphs under seven predicate families compared with a closure the monitor computes "
+                "from the source's own kids(); termination as a bound on predicate invocations + crash classification.",
+        "design_ref": "§4 C13",
+        "note": TRUST + " Predicates are pure tables keyed by (from,to,label), so the expected closure is well defined.",
+        "technique": "result monitor with an independently computed reachability closure; logical-step termination bound",
+    },
+    "C18": {
+        "text": "Exploration: XML parsed back with sxd-document and DOT with a line grammar, compared with keys()/kids()/recorded data; "
+                "canonicity through twin builds of the same abstract graph compared byte for byte.",
+        "design_ref": "§4 C18",
+        "note": TRUST + " Data bytes come from the reference model (what was last put).",
+        "technique": "parse-back monitor + twin-build canonicity check",
+    },
+    "C20": {
+        "text": "Exploration: inspect() parsed by indentation and compared edge-for-edge with kids() of every reachable vertex, "
+                "output-size bound for termination; Debug/Display/v_print parsed and compared with keys()/kids()/recorded data.",
+        "design_ref": "§4 C20",
+        "note": TRUST,
+        "technique": "parse-back monitor; logical-step (output size) termination bound + crash classification",
+    },
+    "C15": {
+        "text": "Exploration (complete sweep inside the stated bounds): every accessor/index/range of Hex in every representation compared "
+                "with the same operation on the byte slice, including the panic/no-panic outcome.",
+        "design_ref": "§4 C15",
+        "note": TRUST + " Oracle: Rust's slice operations.",
+        "technique": "differential monitor against the byte slice (value and panic outcome)",
+    },
+    "C16": {
+        "text": "Exploration (complete sweep of length pairs 0..=12 x representations): concat() against Vec concatenation. One known finding "
+                "(inline left operand shorter than 8 bytes spilling to the heap) is matched by an exact instance predicate; any other mismatch is a violation.",
+        "design_ref": "§4 C16, §3.11",
+        "note": TRUST,
+        "technique": "differential monitor against Vec concatenation with known-finding signature matching",
+    },
+    "C17": {
+        "text": "Exploration (all strings up to 4 characters over a 12-character alphabet + sampled longer ones; canonical values): parse-print, "
+                "print-parse, rejection and kid() lookup under parsed vs built labels.",
+        "design_ref": "§4 C17, §5",
+        "note": TRUST + " The demand per text follows the reading in DESIGN §5 (no demand on leading zeros / leading '+').",
+        "technique": "round-trip monitor with the string itself as oracle",
+    },
 }
 
 _PENDING = "check under construction in this round; not claimed yet"
 NOT_APPLICABLE = [
     {"property_id": p, "reason": _PENDING}
-    for p in ["C07", "C08", "C09", "C10", "C11", "C12", "C13", "C14", "C15", "C16", "C17", "C18", "C19", "C20"]
+    for p in ["C07", "C11", "C12", "C14", "C19"]
 ]
